@@ -187,6 +187,20 @@ def run(chk):
             if thorough or i % 5 == 0:
                 attack('insert', sec, name, w[:i] + 'A' + w[i:], i, w)
         attack('empty-sig', sec, name, '!?' + w[q + 1:], -1, w)
+        # edits that a lenient base64 decoder ignores: the unused low bits of the last data character, anything after the padding,
+        # characters outside the alphabet anywhere
+        last = len(w) - 1
+        while last > q and w[last] == '=':
+            last -= 1
+        for pos_ in sorted({last, last - 1, q + 1, q - 1, q - 2}):
+            if q < pos_ < len(w) or 1 <= pos_ < q:
+                for ch_ in B64[:64]:
+                    attack('subst-all', sec, name, w[:pos_] + ch_ + w[pos_ + 1:], pos_, w)
+        for tail in ['A', '=', '==', 'AAAA', '-', '.', '~', ' ', '\n']:
+            attack('append', sec, name, w + tail, len(w), w)
+        for pos_ in (q + 1, q + 3, (q + len(w)) // 2, len(w) - 1, 2, q - 1):
+            for ch_ in '-.~ _*':
+                attack('insert-nonalpha', sec, name, w[:pos_] + ch_ + w[pos_:], pos_, w)
         attack('sig-prefix', sec, name, '!' + w[1:q][:5] + '?' + w[q + 1:], -1, w)
         attack('no-bang', sec, name, w[1:], -1, w)
         for sec2, name2, v2, w2 in minted:
